@@ -93,6 +93,8 @@ def check_case(case):
         cls.append("day-without-month")
     if case.get("sep"):
         cls.append("numeric-sep:" + case["sep"])
+    if case.get("leapday"):
+        cls.append("format:29-february")
     if both:
         cls.append("mode:both")
     present = case.get("present")
@@ -206,12 +208,24 @@ def cases(draw):
         c.update(s=str(n) + draw(st.sampled_from(["", "000", "123456"])), lang="en", present=PARTS)
     elif src == "format":
         y, m, d = draw(st.integers(1900, 2100)), draw(st.integers(1, 12)), draw(st.integers(1, 28))
+        leapday = draw(st.integers(0, 5)) == 0
+        if leapday:
+            # 29 February: with a year-less format the year comes from the clock, and only some years have that day — the
+            # stated day must come back as written or not at all, at a leap and at a non-leap reference year alike
+            y, m, d = draw(st.sampled_from([1904, 1996, 2000, 2024, 2096])), 2, 29
+            c["b1"][0] = draw(st.sampled_from([1996, 2000, 2024, 2032]))
+            c["b2"][0] = draw(st.sampled_from([1999, 2023, 2100 - 74, 2031]))
+            c["b1"][2], c["b2"][2] = min(c["b1"][2], 28), min(c["b2"][2], 28)
+        elif draw(st.integers(0, 3)) == 0:
+            d = gen.mdays(y, m)
         fmt, s, present = draw(st.sampled_from([
             ("%d %B %Y", "%02d %s %d" % (d, MONTHS_EN[m - 1], y), PARTS), ("%B %Y", "%s %d" % (MONTHS_EN[m - 1], y), ["month", "year"]),
             ("%Y", "%d" % y, ["year"]), ("%d/%m", "%02d/%02d" % (d, m), ["day", "month"]), ("%H:%M", "%02d:%02d" % (d % 24, m), []),
             ("%Y-%m-%d %H:%M", "%d-%02d-%02d 10:%02d" % (y, m, d, d), PARTS), ("%d.%m.%y", "%02d.%02d.%02d" % (d, m, y % 100), PARTS),
             ("%b %d", "%s %02d" % (MONTHS_EN[m - 1][:3], d), ["day", "month"])]))
         c.update(s=s, lang="en", formats=[fmt], present=present)
+        if leapday:
+            c["leapday"] = True
         if parsers is not None and "custom-formats" not in parsers:
             c["parsers"] = ["custom-formats", "absolute-time"]
     elif draw(st.integers(0, 5)) == 0:
